@@ -64,7 +64,13 @@ func (d *DateTime) UnmarshalJSON(bytes []byte) error {
 	if err != nil {
 		datetime, err = time.ParseInLocation("2006-01-02 15:04:05 MST", s, time.Local)
 		if err != nil {
-			return err
+			// ... timezones without an abbreviation are formatted as a numeric offset (e.g. +0545)
+			datetime, err = time.ParseInLocation("2006-01-02 15:04:05 -0700", s, time.Local)
+			if err != nil {
+				return err
+			}
+
+			datetime = datetime.In(time.Local)
 		}
 	}
 
